@@ -181,3 +181,11 @@ plan("C17", "exploration",
      lambda tier: [S("C17", 5000)] if tier == "quick" else [S("C17", 200000), S("C17", 50000, cfg="hist8k"), S("C17", 50000, cfg="longhuff")],
      assumptions=["dictionaries are installed at stream start", "byte equality set_dict == tail-only == process/reset is sound because both paths hash the same bytes with the same mask at total_in == 0",
                   "struct isal_dict is zeroed before isal_deflate_process_dict, as the in-tree callers do"])
+
+plan("C05", "exploration",
+     "Every data-plane symbol (CRC/Adler, zero-detect, EC, RAID: direct per-ISA kernels and dispatchers under 12 cpu levels) x lengths {0, 1, every vector-width remainder, around a page, random} x both guard "
+     "placements; igzip one-shot and auxiliary entry points with exact-size mappings; streaming compression and decompression histories with one mapping per chunk that is unmapped the moment the call returns "
+     "and relocation of unconsumed input, whose results must still be correct. Faults are converted to failures. Non-trivial: a vector tail (len not multiple of 64) or a history with >= 2 calls.",
+     lambda tier: [S("C05", 24000 if tier == "quick" else 1000000)],
+     assumptions=["direct kernels are not called below their documented minimum length or with misaligned RAID buffers", "relocating unconsumed input between calls is legal (the codec recomputes its base from next_in - total_in)",
+                  "level_buf is 16-byte aligned as any malloc'ed buffer"])
